@@ -11,6 +11,8 @@ sys.path.insert(0, os.path.join(os.path.dirname(os.path.abspath(__file__)), ".."
 import vlib, metalib
 
 KNOWN_TEXT = {
+    "children-stale-after-remove": "removeDiskNode leaves the removed snapshot's diskChildrenMap entry: a snapshot created later with the "
+                                   "same name is listed with a stale second child (and cannot be removed) until the replica is reopened",
     "revert-target": "Revert to a name that is not a non-head chain member (the head itself / an off-chain file) destroys the directory",
 }
 
@@ -24,6 +26,16 @@ def shape_of(case, outs, failstep):
     o = ops[failstep]
     prev = outs["obs"][failstep - 1]
     chain = prev.get("chain") or []
+    if o["op"] == "snap":
+        # the name was removed from the chain earlier in this session (no reopen since)
+        name = metalib.dname_str(("s", o["s"]))
+        for k in range(failstep - 1, -1, -1):
+            q = ops[k]
+            if q["op"] in ("open", "revert") and outs["obs"][k]["res"] == "ok":
+                break
+            if q["op"] == "rm" and metalib.dname_str(tuple(q["d"])) == name and outs["obs"][k]["res"] == "ok" \
+                    and k > 0 and name in (outs["obs"][k - 1].get("chain") or []):
+                return "children-stale-after-remove"
     if o["op"] == "revert":
         name = metalib.dname_str(tuple(o["d"]))
         if name not in chain[1:] and name in prev["dir"]:
@@ -63,7 +75,7 @@ def main(ctx, replay=None):
         sys.exit(1 if bad else 0)
 
     quick = ctx.tier == "quick"
-    cases = gen_cases(ctx, 170 if quick else 6000)
+    cases = gen_cases(ctx, 150 if quick else 6000)
     bad, cov, outs = metalib.run_cases(ctx, binpath, cases)
 
     concrete, known, drift = [], [], []
@@ -88,10 +100,15 @@ def main(ctx, replay=None):
 
     seen = set()
     known.sort(key=lambda x: len(cases[x[0]["case"]]["ops"]))          # minimise the shortest representative of each shape
+    nfixed = len(metalib.fixed_cases()) + len(metalib.known_cases())
     for b, sh in known:
         if sh in seen:
             continue
         seen.add(sh)
+        if b["case"] < nfixed:
+            # one of the hand-minimised histories of metalib.known_cases(): nothing to shrink
+            vlib.known_finding(ctx, sh, KNOWN_TEXT[sh])
+            continue
         # the predicate is evaluated on the minimised history
         small, bb, oo = minimise(b, cases[b["case"]], lambda x: not x["c12"])
         sh2 = shape_of(small, oo[0], bb[0]["failstep"]) if bb and not bb[0]["c12"] else None
